@@ -307,4 +307,166 @@ theorem emit_only_into_open_channel (t : TSys) (h : TInv t) (hi : Inv t.s) (he :
   have hc := hi.chan
   rcases h.emitting he with h0 | h0 <;> rw [h0] at hc <;> cases hb : t.s.seqsClosed <;> simp [hb, pD] at hc ⊢
 
+/-! ### A state of rest of `TSys` is (or reduces to) a state of rest of `SSys` -/
+
+theorem iact_setppc (s : SSys) (p : PPc) (v : IView) (a : IAct) :
+    iact { s with ppc := p } v a = (iact s v a).map (fun r => ({ r.1 with ppc := p }, r.2)) := by
+  cases a <;> simp only [iact] <;> (repeat' split) <;> simp_all
+
+theorem closeStep_setppc (s : SSys) (p : PPc) (k : Bool) (c : CPc) :
+    closeStep { s with ppc := p } k c = (closeStep s k c).map (fun r => ({ r.1 with ppc := p }, r.2)) := by
+  cases c <;> simp only [closeStep, afterGuard, afterSignal, afterDA1] <;> (repeat' split) <;> simp_all
+
+/-- Whether a step of anybody but the parser is enabled does not depend on the parser's program counter. -/
+theorem snext_setppc_none (s : SSys) (p : PPc) (l : SLabel) (hl : l.sched = true) (hp : l ≠ .parser) (h : snext s l = none) :
+    snext { s with ppc := p } l = none := by
+  cases l with
+  | parser => exact absurd rfl hp
+  | termReply => simp only [snext] at h ⊢; split at h <;> simp_all
+  | consume => simp only [snext] at h ⊢; split at h <;> simp_all
+  | input a =>
+    simp only [snext] at h ⊢
+    rw [iact_setppc]
+    cases hi : iact s ⟨s.ipc, s.seqs, s.seqsClosed⟩ a with
+    | none => rfl
+    | some r => simp [hi] at h
+  | old j a =>
+    simp only [snext] at h ⊢
+    cases ho : s.olds[j]? with
+    | none => rfl
+    | some o =>
+      simp only [ho] at h ⊢
+      rw [iact_setppc]
+      cases hi : iact s ⟨o.ipc, o.seqs, true⟩ a with
+      | none => rfl
+      | some r => simp [hi] at h
+  | caller j =>
+    simp only [snext] at h ⊢
+    cases hc : s.callers[j]? with
+    | none => rfl
+    | some c =>
+      simp only [hc] at h ⊢
+      rw [closeStep_setppc]
+      cases hs : closeStep s c.inClose c.pc with
+      | none => rfl
+      | some r => simp [hs] at h
+  | drain j =>
+    simp only [snext] at h ⊢
+    cases hc : s.callers[j]? with
+    | none => rfl
+    | some c =>
+      simp only [hc] at h ⊢
+      (repeat' split at h) <;> simp_all
+  | termInput u => simp [SLabel.sched] at hl
+  | signal => simp [SLabel.sched] at hl
+  | winch => simp [SLabel.sched] at hl
+  | callClose => simp [SLabel.sched] at hl
+  | callSuspend => simp [SLabel.sched] at hl
+  | resume => simp [SLabel.sched] at hl
+
+/-- The protocol invariant does not distinguish a parser at the top of its loop / in `ReadRune` from one
+that is in the middle of an emit. -/
+theorem inv_setppc_emitting (s : SSys) (k : Nat) (h : Inv s) (hp : s.ppc = .top ∨ s.ppc = .reading) :
+    Inv { s with ppc := .emitting k } := by
+  obtain ⟨h1, h2, h3, h4, h5, h6, h7, h8, h9, h10, h11, h12, h13, h14⟩ := h
+  rcases hp with hp | hp
+  · refine ⟨h1, h2, h3, h4, h5, h6, ?_, ?_, ?_, ?_, h11, ?_, ?_, h14⟩
+    · simp only [pT, pX, pD, hp] at h7 ⊢; exact h7
+    · simp only [pD, hp] at h8 ⊢; exact h8
+    · simp only [pT, pD, hp] at h9 ⊢; exact h9
+    · simp only [pT, pD, hp] at h10 ⊢; exact h10
+    · simp only [pD, hp] at h12 ⊢; exact h12
+    · simp only [pR, hp] at h13 ⊢; exact h13
+  · refine ⟨h1, h2, h3, h4, h5, h6, ?_, ?_, ?_, ?_, h11, ?_, ?_, h14⟩
+    · simp only [pT, pX, pD, hp] at h7 ⊢; exact h7
+    · simp only [pD, hp] at h8 ⊢; exact h8
+    · simp only [pT, pD, hp] at h9 ⊢; exact h9
+    · simp only [pT, pD, hp] at h10 ⊢; exact h10
+    · simp only [pD, hp] at h12 ⊢; exact h12
+    · simp only [pR, hp] at h13 ⊢; omega
+
+theorem postBlocked_setppc (s : SSys) (p : PPc) (i : IPc) : postBlocked { s with ppc := p } i ↔ postBlocked s i := Iff.rfl
+
+/-- **At rest with the timer.**  In a state of rest of `TSys` that satisfies both invariants: every
+caller of `Close` / `Suspend` has returned; if the session is suspended the parser is done, NO TIMER
+IS PENDING (an armed timer finds the generation bumped and returns), and the input goroutine is done or
+blocked in a post the application has not received; once closed, `chQuit` is closed exactly once and
+every input goroutine is done. -/
+theorem rest_with_timer (t : TSys) (hi : Inv t.s) (ht : TInv t) (hq : t.quiescent = true) :
+    sumBy fUnret t.s.callers = 0 ∧
+    (t.s.suspendedFlag = true → t.s.ppc = .done ∧ t.timer = .idle ∧ (t.s.ipc = .done ∨ postBlocked t.s t.s.ipc)) ∧
+    (∀ o ∈ t.s.olds, o.ipc = .done ∨ postBlocked t.s o.ipc) ∧
+    (t.s.closedFlag = true → t.s.quitCloses = 1 ∧ t.s.suspendedFlag = true ∧ t.s.ipc = .done ∧ ∀ o ∈ t.s.olds, o.ipc = .done) := by
+  simp only [TSys.quiescent, Bool.and_eq_true, List.all_eq_true, Option.isNone_iff_eq_none] at hq
+  obtain ⟨⟨⟨hsys, _harm⟩, hfire⟩, htemit⟩ := hq
+  by_cases he : t.timer = .emitting
+  · -- the callback holds p.mu at its emit: as far as everybody else is concerned the parser is in an emit
+    have hpp := ht.emitting he
+    have hfull : ¬ t.s.seqs.length < 2 := by
+      intro hlt
+      simp [tnext, he, hlt] at htemit
+    have hinv' : Inv { t.s with ppc := .emitting 1 } := inv_setppc_emitting t.s 1 hi hpp
+    have hq' : ({ t.s with ppc := .emitting 1 } : SSys).quiescent = true := by
+      simp only [SSys.quiescent, List.all_eq_true, Option.isNone_iff_eq_none]
+      intro l hl
+      have hl' : l ∈ t.s.schedLabels := hl
+      by_cases hp : l = .parser
+      · subst hp
+        simp only [snext]
+        rw [if_neg hfull]
+      · have hsched : l.sched = true := by
+          simp only [SSys.schedLabels, schedActs, List.mem_append, List.mem_cons, List.mem_flatMap, List.mem_range, List.mem_map,
+            List.mem_nil_iff, or_false] at hl'
+          rcases hl' with ((h0 | h0) | h0) | h0
+          · rcases h0 with rfl | rfl | rfl <;> rfl
+          · obtain ⟨a, ha, rfl⟩ := h0
+            rcases ha with rfl | rfl | rfl | rfl | rfl <;> rfl
+          · obtain ⟨j, _, h0⟩ := h0
+            rcases h0 with rfl | rfl <;> rfl
+          · obtain ⟨j, _, a, ha, rfl⟩ := h0
+            rcases ha with rfl | rfl | rfl | rfl | rfl <;> rfl
+        have h0 := hsys l hl'
+        rw [tnext_sys_other t l hp] at h0
+        have h1 : snext t.s l = none := by
+          cases hs : snext t.s l with
+          | none => rfl
+          | some x => simp [hs] at h0
+        exact snext_setppc_none t.s _ l hsched hp h1
+    obtain ⟨r1, r2, r3, r4⟩ := rest_is_done _ hinv' hq'
+    refine ⟨r1, ?_, r3, ?_⟩
+    · intro hs
+      have := (r2 hs).1
+      cases this
+    · intro hc
+      obtain ⟨a, b, c, d⟩ := r4 hc
+      have := (r2 b).1
+      cases this
+  · -- the timer does not hold p.mu: the state of rest is one of `SSys`
+    have hq' : t.s.quiescent = true := by
+      simp only [SSys.quiescent, List.all_eq_true, Option.isNone_iff_eq_none]
+      intro l hl
+      have h0 := hsys l hl
+      by_cases hp : l = .parser
+      · subst hp
+        simp only [tnext] at h0
+        have hne : (t.timer == .emitting) = false := by simpa using he
+        simp only [hne, Bool.false_and, Bool.false_eq_true, if_false] at h0
+        cases hs : snext t.s .parser with
+        | none => rfl
+        | some x => simp [hs] at h0
+      · rw [tnext_sys_other t l hp] at h0
+        cases hs : snext t.s l with
+        | none => rfl
+        | some x => simp [hs] at h0
+    obtain ⟨r1, r2, r3, r4⟩ := rest_is_done t.s hi hq'
+    refine ⟨r1, ?_, r3, r4⟩
+    intro hs
+    obtain ⟨hd, hrest⟩ := r2 hs
+    refine ⟨hd, ?_, hrest⟩
+    cases htm : t.timer with
+    | idle => rfl
+    | emitting => exact absurd htm he
+    | armed =>
+      simp [tnext, htm, hd, holdsMu] at hfire
+
 end VaxisModel.Lemmas.ConcTimer
